@@ -1,14 +1,8 @@
-"""C12: (1) fact extractor for the two error translators of /repo -> lean/HeimdallModel/Gen/ErrMapGen.lean,
-(2) case generators for the `errmap` line-protocol family.
-
-The extractor matches API-level shapes only (`case errors.Is(err, heimdall.ErrX) || …:`, `h.onXxxError(…)`,
-`func WithXxxErrorCode(code int)` with its guard and the field it sets, `defaults.<field> = errorWriter(…, http.StatusX)`,
-`<field>: responseWith(codes.X, http.StatusY)`, the supported media type lists, the options passed by the three
-services) and fails closed: any shape it does not recognise raises ExtractError (reported as a broken tie)."""
+"""C12: (1) the facts of the two error translators, the request contexts and the services' wiring, OBSERVED by probing
+the running code through the harness -> lean/HeimdallModel/Gen/ErrMapGen.lean, (2) case generators for the `errmap`
+line-protocol family. No source text of /repo is read (an earlier regex extractor raised alarms on refactorings)."""
 import json
 import os
-import re
-import subprocess
 
 import vlib
 
@@ -17,362 +11,283 @@ class ExtractError(Exception):
     pass
 
 
-HTTP_DIR = "internal/handler/middleware/http/errorhandler"
-GRPC_DIR = "internal/handler/middleware/grpc/errorhandler"
-SERVICES = [("decision", "internal/handler/decision/service.go"),
-            ("proxy", "internal/handler/proxy/service.go"),
-            ("envoy", "internal/handler/envoyextauth/grpcv3/service.go")]
-
-# the classes are named by the option with which an operator configures their status
-OPTION_CLASS = {
-    "WithAuthenticationErrorCode": "authn", "WithAuthorizationErrorCode": "authz",
-    "WithCommunicationErrorCode": "comm", "WithPreconditionErrorCode": "precond",
-    "WithNoRuleErrorCode": "noRule", "WithInternalServerErrorCode": "internal",
-}
 CLASSES = ["authn", "authz", "comm", "precond", "noRule", "internal"]
-SENTINEL_KIND = {
-    "ErrArgument": "argument", "ErrAuthentication": "authentication", "ErrAuthorization": "authorization",
-    "ErrCommunication": "communication", "ErrCommunicationTimeout": "timeout",
-    "ErrConfiguration": "configuration", "ErrInternal": "internal", "ErrNoRuleFound": "noRule",
-}
 KINDS = ["argument", "authentication", "authorization", "communication", "timeout", "configuration", "internal",
          "noRule"]
-CFG_FIELD = {
-    "ArgumentError": "argumentError", "AuthenticationError": "authenticationError",
-    "AuthorizationError": "authorizationError", "CommunicationError": "communicationError",
-    "InternalError": "internalError", "NoRuleError": "noRuleError", "Accepted": "accepted",
-}
+SERVICES = ["decision", "proxy", "envoy"]
 MEDIA = {"text/html": "html", "application/json": "json", "text/plain": "plain", "application/xml": "xml"}
+MEDIA_MIME = dict((v, k) for k, v in MEDIA.items())
+# canonical order of the tests inside one case of the reconstructed switch (not observable, any fixed order will do)
+CANON_TESTS = ["authentication", "authorization", "timeout", "communication", "argument", "noRule", "configuration",
+               "internal", "redirect"]
+
+# ---------------------------------------------------------------------------------------------------------------
+# facts of the two translators, OBSERVED on the running code (no source text is read)
+#
+# The harness links the real packages. Probe cases are sent through the ordinary `handler` op (real
+# errorhandler.New(opts…).HandleError, real gRPC interceptor) and through `ctxprobe` / `wireprobe`; the tables of
+# Gen/ErrMapGen.lean are derived from the answers:
+#   class of every leaf           one value per sentinel / redirect / foreign error under a configuration in which every
+#                                 option carries a status of its own: the status names the option, i.e. the class
+#   precedence (the `switch`)     every ordered pair of leaves of different classes in a chain
+#   default statuses, gRPC codes  one value per class without overrides
+#   option guards, WriteHeader    overrides -1 and 1 per class (taken / ignored / panic)
+#   media preference, fallback    Accept: */* with the types found so far excluded; unacceptable / invalid / no Accept
+#   challenge                     error returned by the three real `Finalize` after a challenge was collected
+#   wiring                        the three services built by their own constructors, every override field distinct
+# Whatever does not fit the shape of a `Translator` raises ExtractError (reported as a broken tie); any behavioural
+# change is then exhibited concretely by the correspondence streams.
+
+PROBE_OV = {"authn": 441, "authz": 442, "comm": 443, "precond": 444, "noRule": 445, "internal": 446}
+PROBE_REDIRECT = {"t": "redirect", "code": 307, "to": "http://probe.local/r"}
+PROBE_LEAVES = dict([(k, {"t": "kind", "k": k}) for k in KINDS] + [("redirect", PROBE_REDIRECT),
+                                                                   ("foreign", {"t": "foreign", "v": 0})])
 
 
-def _read(repo, rel):
-    path = os.path.join(repo, rel)
-    try:
-        with open(path) as fh:
-            return fh.read()
-    except OSError as e:
-        raise ExtractError(f"cannot read {rel}: {e}")
+def _chain(*es):
+    return {"t": "chain", "es": list(es), "v": 0}
 
 
-def _strip_go_comments(src):
-    src = re.sub(r"/\*.*?\*/", "", src, flags=re.S)
-    return "\n".join(re.sub(r"//.*$", "", l) if '"' not in l else l for l in src.splitlines())
+def _zero_ov(**kw):
+    ov = dict((c, 0) for c in CLASSES)
+    ov.update(kw)
+    return ov
 
 
-_const_cache = {}
-
-
-def _go_consts():
-    """net/http status names and gRPC code names, read from the toolchain / module the build uses"""
-    if _const_cache:
-        return _const_cache
-    env = vlib.go_env()
-    goroot = subprocess.run(["go", "env", "GOROOT"], env=env, capture_output=True, text=True, cwd=vlib.REPO).stdout.strip()
-    try:
-        with open(os.path.join(goroot, "src/net/http/status.go")) as fh:
-            st = dict((m.group(1), int(m.group(2))) for m in re.finditer(r"^\s*(Status\w+)\s*=\s*(\d+)", fh.read(), re.M))
-    except OSError as e:
-        raise ExtractError(f"net/http status table: {e}")
-    p = subprocess.run(["go", "list", "-m", "-f", "{{.Dir}}", "google.golang.org/grpc"], env=env, capture_output=True,
-                       text=True, cwd=vlib.REPO)
-    d = p.stdout.strip()
-    try:
-        with open(os.path.join(d, "codes/codes.go")) as fh:
-            gc = dict((m.group(1), int(m.group(2))) for m in re.finditer(r"^\s*(\w+) Code = (\d+)", fh.read(), re.M))
-    except OSError as e:
-        raise ExtractError(f"grpc codes table: {e} ({p.stderr.strip()[:200]})")
-    if len(st) < 40 or len(gc) < 17:
-        raise ExtractError("status / code tables incomplete")
-    _const_cache.update({"http": st, "grpc": gc})
-    return _const_cache
-
-
-def _status(expr):
-    expr = expr.strip()
-    if re.fullmatch(r"\d+", expr):
-        return int(expr)
-    m = re.fullmatch(r"http\.(Status\w+)", expr)
-    if not m or m.group(1) not in _go_consts()["http"]:
-        raise ExtractError(f"unknown status expression {expr!r}")
-    return _go_consts()["http"][m.group(1)]
-
-
-def _grpc_code(expr):
-    m = re.fullmatch(r"codes\.(\w+)", expr.strip())
-    if not m or m.group(1) not in _go_consts()["grpc"]:
-        raise ExtractError(f"unknown gRPC code expression {expr!r}")
-    return _go_consts()["grpc"][m.group(1)]
-
-
-def _func_body(src, header_re):
-    """body of the first function whose header matches; brace counting"""
-    m = re.search(header_re, src)
-    if not m:
-        raise ExtractError(f"function {header_re!r} not found")
-    i = src.index("{", m.end() - 1) if src[m.end() - 1] != "{" else m.end() - 1
-    depth = 0
-    for j in range(i, len(src)):
-        if src[j] == "{":
-            depth += 1
-        elif src[j] == "}":
-            depth -= 1
-            if depth == 0:
-                return src[i + 1:j]
-    raise ExtractError("unbalanced braces")
-
-
-def _switch(body, call_re):
-    """ordered cases of the `switch {` in body: [(tests, field or 'redirect')], default field"""
-    m = re.search(r"\bswitch\s*\{", body)
-    if not m:
-        raise ExtractError("no switch")
-    sw = _func_body(body[m.start():], r"switch\s*\{")
-    parts = re.split(r"^\s*(case\b.*?:|default:)\s*$", sw, flags=re.M | re.S)
-    # split on lines ending a case header; a header may span one line only in the shapes we accept
-    heads = [(i, p) for i, p in enumerate(parts) if re.match(r"\s*(case\b|default:)", p)]
-    if not heads:
-        raise ExtractError("switch without cases")
-    if parts[0].strip():
-        raise ExtractError("unexpected text before the first case")
-    cases, dflt = [], None
-    for idx, head in heads:
-        block = parts[idx + 1] if idx + 1 < len(parts) else ""
-        if head.strip() == "default:":
-            calls = re.findall(call_re, block)
-            if len(calls) != 1 or dflt is not None:
-                raise ExtractError("default branch not understood")
-            dflt = calls[0]
-            continue
-        cond = head.strip()[len("case"):].rstrip(":").strip()
-        tests = []
-        for t in cond.split("||"):
-            t = t.strip()
-            m1 = re.fullmatch(r"errors\.Is\(err,\s*heimdall\.(Err\w+)\)", t)
-            m2 = re.fullmatch(r"errors\.Is\(err,\s*&heimdall\.RedirectError\{\}\)", t)
-            if m1 and m1.group(1) in SENTINEL_KIND:
-                tests.append(("kind", SENTINEL_KIND[m1.group(1)]))
-            elif m2:
-                tests.append(("redirect",))
-            else:
-                raise ExtractError(f"case condition not understood: {t!r}")
-        calls = re.findall(call_re, block)
-        if any(t == ("redirect",) for t in tests):
-            if calls or "redirectError.Code" not in block or "redirectError.RedirectTo" not in block \
-                    or not re.search(r"errors\.As\(err,\s*&redirectError\)", block):
-                raise ExtractError("redirect branch not understood")
-            cases.append((tests, "redirect"))
-        else:
-            if len(calls) != 1:
-                raise ExtractError(f"case {cond!r} calls {calls}")
-            cases.append((tests, calls[0]))
-    if dflt is None:
-        raise ExtractError("switch without default")
-    return cases, dflt
-
-
-def _options(src, field_re):
-    """{option: (guard, field, rhs)} for the WithXxxErrorCode options"""
-    res = {}
-    for m in re.finditer(r"func (With\w+ErrorCode)\(code int\) Option \{", src):
-        body = _func_body(src[m.start():], r"func With\w+ErrorCode\(code int\) Option \{")
-        g = re.search(r"if code (!=|>) 0 \{\s*o\.(" + field_re + r") = (.+?)\s*\}", body, re.S)
-        if not g or len(re.findall(r"\bo\.\w+\s*=", body)) != 1:
-            raise ExtractError(f"option {m.group(1)} not understood")
-        res[m.group(1)] = ("neZero" if g.group(1) == "!=" else "gtZero", g.group(2), g.group(3).strip())
-    if set(res) != set(OPTION_CLASS):
-        raise ExtractError(f"options found: {sorted(res)}")
-    fields = [v[1] for v in res.values()]
-    if len(set(fields)) != len(fields):
-        raise ExtractError("two options set the same field")
-    return res
-
-
-def _media_list(src, anchor_re, item_re):
-    m = re.search(anchor_re, src, re.S)
-    if not m:
-        raise ExtractError("media type list not found")
-    items = re.findall(item_re, m.group(1))
+def probe_cases():
+    """[(tag, case)] — every case is an ordinary line-protocol case of the family"""
     out = []
-    for it in items:
-        mt = it if isinstance(it, str) else "/".join(it)
-        if mt not in MEDIA:
-            raise ExtractError(f"unknown media type {mt}")
-        out.append(MEDIA[mt])
-    if sorted(out) != sorted(MEDIA.values()):
-        raise ExtractError(f"supported media types: {out}")
+    plain = {"k": "absent"}
+    cfg_id = {"verbose": False, "ov": dict(PROBE_OV)}
+    for name, leaf in PROBE_LEAVES.items():
+        out.append((("leaf", name), handler_case(cfg_id, None, plain, _chain(leaf))))
+        out.append((("default", name), handler_case({"verbose": False, "ov": _zero_ov()}, None, plain, _chain(leaf))))
+    names = [n for n in PROBE_LEAVES if n != "foreign"]
+    for a in names:
+        for b in names:
+            if a != b:
+                out.append((("pair", a, b), handler_case(cfg_id, None, plain, _chain(PROBE_LEAVES[a], PROBE_LEAVES[b]))))
+    for k in KINDS:
+        for v in (-1, 1):
+            for c in CLASSES:
+                out.append((("guard", k, c, v), handler_case({"verbose": False, "ov": _zero_ov(**{c: v})}, None, plain,
+                                                              _chain(PROBE_LEAVES[k]))))
+    out.append((("redirect99",), handler_case(cfg_id, None, plain, _chain({"t": "redirect", "code": 99, "to": "/r"}))))
+    vcfg = {"verbose": True, "ov": _zero_ov()}
+    e = _chain(PROBE_LEAVES["authentication"])
+    # media preference: */* with 0, 1, 2, 3 supported types excluded, every subset order is resolved by derive_facts
+    import itertools
+    for n in range(0, 4):
+        for excl in itertools.permutations(sorted(MEDIA), n):
+            hdr = ", ".join(["*/*;q=0.5"] + [m + ";q=0" for m in excl])
+            acc = {"k": "ranges", "rs": [{"t": "*", "s": "*", "q": 500, "p": 0}] +
+                   [{"t": m.split("/")[0], "s": m.split("/")[1], "q": 0, "p": 0} for m in excl]}
+            out.append((("media", excl), handler_case(vcfg, hdr, acc, e)))
+    out.append((("absent",), handler_case(vcfg, None, plain, e)))
+    out.append((("unacceptable",), handler_case(vcfg, "image/png", {"k": "ranges", "rs": [
+        {"t": "image", "s": "png", "q": 1000, "p": 0}]}, e)))
+    out.append((("invalid",), handler_case(vcfg, "*/html", {"k": "invalid"}, e)))
+    out.append((("ctxprobe",), {"fam": "errmap", "op": "ctxprobe"}))
+    out.append((("wireprobe",), {"fam": "errmap", "op": "wireprobe"}))
     return out
 
 
-def extract_http(repo):
-    eh = _strip_go_comments(_read(repo, HTTP_DIR + "/error_handler.go"))
-    body = _func_body(eh, r"func \(h \*errorHandler\) HandleError\(")
-    cases, dflt = _switch(body, r"\bh\.(on\w+Error)\(rw, req, err\)")
-    opts = _options(_strip_go_comments(_read(repo, HTTP_DIR + "/options.go")), r"on\w+Error")
-    for o, (_, _, rhs) in opts.items():
-        if rhs != "errorWriter(o, code)":
-            raise ExtractError(f"{o}: unexpected writer {rhs!r}")
-    dsrc = _strip_go_comments(_read(repo, HTTP_DIR + "/defaults.go"))
-    defaults = dict((m.group(1), _status(m.group(2)))
-                    for m in re.finditer(r"defaults\.(on\w+Error) = errorWriter\(defaults, ([\w.]+)\)", dsrc))
-    fmt = _strip_go_comments(_read(repo, HTTP_DIR + "/formatter.go"))
-    media = _media_list(fmt, r"supportedMediaTypes = \[\]contenttype\.MediaType\{(.*?)\n\}",
-                        r'contenttype\.NewMediaType\("([^"]+)"\)')
-    wbody = _func_body(fmt, r"func errorWriter\(")
-    shapes = [
-        re.search(r"contenttype\.GetAcceptableMediaType\(req, supportedMediaTypes\)", fmt),
-        re.search(r"if options\.verboseErrors \{\s*mt, body, err = format\(req, err\)", wbody),
-        re.search(r"if err != nil \{\s*return contenttype\.MediaType\{\}, nil, err\s*\}", fmt),
-        re.search(r'rw\.Header\(\)\.Set\("X-Content-Type-Options", "nosniff"\)', wbody),
-        re.search(r'rw\.Header\(\)\.Set\("Content-Type", mt\.String\(\)\)', wbody),
-        re.search(r"rw\.WriteHeader\(code\)", wbody),
-        re.search(r'rw\.Header\(\)\.Set\("Location", redirectError\.RedirectTo\)\s*rw\.WriteHeader\(redirectError\.Code\)',
-                  body),
-    ]
-    challenge = bool(re.search(
-        r"for name, values := range heimdall\.ResponseHeadersFrom\(err\) \{\s*rw\.Header\(\)\[name\] = values\s*\}"
-        r"\s*if options\.verboseErrors", wbody))
-    if not all(shapes):
-        raise ExtractError(f"HTTP writer shapes not recognised: {[bool(s) for s in shapes]}")
-    return _assemble("http", cases, dflt, opts, defaults, media, absent_first=True, fallback=None, nosniff=True,
-                     grpc=None, challenge=challenge)
+def _hdr(resp, name):
+    return [v for k, v in resp.get("hdrs", []) if k.lower() == name.lower()]
 
 
-def extract_grpc(repo):
-    ic = _strip_go_comments(_read(repo, GRPC_DIR + "/interceptor.go"))
-    body = _func_body(ic, r"func \(h \*interceptor\) intercept\(")
-    cases, dflt = _switch(body, r"\bh\.(\w+Error)\(err, h\.verboseErrors, acceptType\(req\)\)")
-    osrc = _strip_go_comments(_read(repo, GRPC_DIR + "/options.go"))
-    opts = _options(osrc, r"\w+Error")
-    dsrc = _strip_go_comments(_read(repo, GRPC_DIR + "/defaults.go"))
-    defaults, gcodes = {}, {}
-    for m in re.finditer(r"(\w+Error):\s*responseWith\(([\w.]+), ([\w.]+)\)", dsrc):
-        defaults[m.group(1)] = _status(m.group(3))
-        gcodes[m.group(1)] = _grpc_code(m.group(2))
-    for o, (_, field, rhs) in opts.items():
-        m = re.fullmatch(r"responseWith\(([\w.]+), code\)", rhs)
-        if not m or field not in gcodes or _grpc_code(m.group(1)) != gcodes[field]:
-            raise ExtractError(f"{o}: gRPC code differs from the default of {field} or shape unknown ({rhs})")
-    er = _strip_go_comments(_read(repo, GRPC_DIR + "/error_response.go"))
-    ebody = _func_body(er, r"func errorResponse\(")
-    media = _media_list(ebody, r"GetAcceptableMediaTypeFromHeader\(\s*mimeType, \[\]contenttype\.MediaType\{(.*?)\}\)",
-                        r'\{Type: "(\w+)", Subtype: "(\w+)"\}')
-    fb = re.search(r'if verbose \{\s*contentType := "([\w/]+)"', ebody)
-    rm = re.search(r"Status:\s*&status\.Status\{Code: int32\(([\w.]+)\)\}", body)
-    shapes = [
-        fb and fb.group(1) in MEDIA,
-        re.search(r"if err == nil \{\s*contentType = mt\.MIME\(\)\s*\}", ebody),
-        re.search(r"Status: &envoy_type\.HttpStatus\{Code: envoy_type\.StatusCode\(httpCodeOverride\)\}", ebody),
-        re.search(r"Status:\s*&status\.Status\{Code: int32\(grpcCode\)\}", ebody),
-        re.search(r"CheckResponse_DeniedResponse\{DeniedResponse: deniedResponse\}", ebody),
-        re.search(r'Key: "Content-Type", Value: contentType', ebody),
-        rm,
-        re.search(r"Status:\s*&envoy_type\.HttpStatus\{Code: envoy_type\.StatusCode\(redirectError\.Code\)\}", body),
-        re.search(r'Key:\s*"Location",\s*Value:\s*redirectError\.RedirectTo', body),
-        re.search(r"res, err := handler\(ctx, req\)\s*if err == nil \{\s*return res, nil\s*\}", body),
-        re.search(r'GetHeaders\(\)\["accept"\]', ic),
-        len(re.findall(r"CheckResponse_OkResponse|OkHttpResponse", ic + er)) == 0 or None,
-    ]
-    challenge = bool(re.search(
-        r"for name, values := range heimdall\.ResponseHeadersFrom\(decErr\) \{\s*deniedResponse\.Headers = "
-        r"append\(deniedResponse\.Headers, &envoy_core\.HeaderValueOption\{\s*Header: &envoy_core\.HeaderValue\{"
-        r"Key: name, Value: strings\.Join\(values, \",\"\)\},\s*\}\)\s*\}\s*if verbose", ebody))
-    if not all(shapes):
-        raise ExtractError(f"gRPC writer shapes not recognised: {[bool(s) for s in shapes]}")
-    return _assemble("grpc", cases, dflt, opts, defaults, media, absent_first=False, fallback=MEDIA[fb.group(1)],
-                     nosniff=False, grpc=(gcodes, _grpc_code(rm.group(1))), challenge=challenge)
+def _need(cond, msg):
+    if not cond:
+        raise ExtractError(msg)
 
 
-def _assemble(name, cases, dflt, opts, defaults, media, absent_first, fallback, nosniff, grpc, challenge):
-    field_class = dict((f, OPTION_CLASS[o]) for o, (_, f, _) in opts.items())
-    if set(defaults) != set(field_class):
-        raise ExtractError(f"{name}: defaults for {sorted(defaults)} but options set {sorted(field_class)}")
+def _derive_translator(side, obs):
+    """obs: tag -> answer of this translator (`http` or `grpc` part of the handler op)"""
+    inv_ov = dict((v, k) for k, v in PROBE_OV.items())
 
-    def act(f):
-        if f == "redirect":
+    def action_of(resp, what):
+        _need(isinstance(resp, dict) and resp.get("out") == "resp", f"{side}: no answer for {what}: {resp}")
+        if _hdr(resp, "Location"):
+            _need(resp["status"] == PROBE_REDIRECT["code"] and _hdr(resp, "Location") == [PROBE_REDIRECT["to"]],
+                  f"{side}: redirect answer for {what} not understood: {resp}")
             return "redirect"
-        if f not in field_class:
-            raise ExtractError(f"{name}: handler {f} has no option")
-        return field_class[f]
-    t = {
-        "cases": [{"tests": [list(x) for x in tests], "act": act(f)} for tests, f in cases],
-        "dflt": act(dflt),
-        "defaults": dict((field_class[f], c) for f, c in defaults.items()),
-        "guards": dict((OPTION_CLASS[o], g) for o, (g, _, _) in opts.items()),
-        "media": media, "absentIsFirst": absent_first, "fallback": fallback, "checksCode": name == "http",
-        "nosniff": nosniff,
-        "grpcCodes": None if grpc is None else [dict((field_class[f], c) for f, c in grpc[0].items()), grpc[1]],
-        "sendsChallenge": challenge,
-    }
-    return t
+        _need(resp["status"] in inv_ov, f"{side}: status {resp['status']} for {what} is not the status of any option")
+        return inv_ov[resp["status"]]
+    act = dict((n, action_of(obs[("leaf", n)], n)) for n in PROBE_LEAVES)
+    dflt = act["foreign"]
+    _need(dflt != "redirect", f"{side}: a foreign error is answered with a redirect")
+    leaves = [n for n in PROBE_LEAVES if n != "foreign"]
+    special = [n for n in leaves if act[n] != dflt]
+    # precedence
+    beats = {}
+    for a in leaves:
+        for b in leaves:
+            if a == b or act[a] == act[b]:
+                continue
+            r1, r2 = action_of(obs[("pair", a, b)], f"{a},{b}"), action_of(obs[("pair", b, a)], f"{b},{a}")
+            _need(r1 == r2 and r1 in (act[a], act[b]),
+                  f"{side}: the class of a chain of {a} and {b} depends on their order or is neither's ({r1}/{r2})")
+            beats[(a, b)] = r1 == act[a]
+    for a in leaves:
+        if act[a] == dflt:
+            _need(all(not beats[(a, b)] for b in special),
+                  f"{side}: {a} (class of the default branch) takes precedence over another class")
+    actions = []
+    for n in special:
+        if act[n] not in actions:
+            actions.append(act[n])
+    for x in actions:
+        for y in actions:
+            if x != y:
+                vals = {beats[(a, b)] for a in special for b in special if act[a] == x and act[b] == y}
+                _need(len(vals) == 1, f"{side}: no consistent precedence between {x} and {y}")
+    import functools
+
+    def cmp(x, y):
+        a = next(n for n in special if act[n] == x)
+        b = next(n for n in special if act[n] == y)
+        return -1 if beats[(a, b)] else 1
+    order = sorted(actions, key=functools.cmp_to_key(cmp))
+    for i, x in enumerate(order):
+        for y in order[i + 1:]:
+            _need(cmp(x, y) == -1, f"{side}: precedence between the classes is not a total order")
+    cases = [{"tests": [["redirect"] if n == "redirect" else ["kind", n] for n in CANON_TESTS
+                        if n in special and act[n] == x], "act": x} for x in order]
+    # default statuses and gRPC codes
+    defaults, gcodes = {}, {}
+    for n in KINDS + ["foreign"]:
+        r = obs[("default", n)]
+        _need(r.get("out") == "resp", f"{side}: no answer for {n} without overrides")
+        c = act[n]
+        _need(defaults.setdefault(c, r["status"]) == r["status"], f"{side}: two default statuses for class {c}")
+        _need(gcodes.setdefault(c, r["grpc"]) == r["grpc"], f"{side}: two gRPC codes for class {c}")
+        _need(obs[("leaf", n)]["grpc"] == r["grpc"], f"{side}: the gRPC code of class {c} depends on the override")
+    _need(set(defaults) == set(CLASSES), f"{side}: classes reached without overrides: {sorted(defaults)}")
+    rd = obs[("default", "redirect")]
+    _need(rd.get("out") == "resp" and rd["status"] == PROBE_REDIRECT["code"] and not rd["body"],
+          f"{side}: redirect without overrides: {rd}")
+    # guards and WriteHeader check
+    guards, checks = {}, set()
+    for k in KINDS:
+        c = act[k]
+        taken = {}
+        for v in (-1, 1):
+            r = obs[("guard", k, c, v)]
+            if r.get("out") == "panic":
+                taken[v] = True
+                checks.add(True)
+            else:
+                _need(r.get("out") == "resp" and r["status"] in (v, defaults[c]),
+                      f"{side}: override {v} for {c}: {r}")
+                taken[v] = r["status"] == v
+                if taken[v]:
+                    checks.add(False)
+            for c2 in CLASSES:
+                if c2 != c:
+                    r2 = obs[("guard", k, c2, v)]
+                    _need(r2.get("out") == "resp" and r2["status"] == defaults[c],
+                          f"{side}: the override of {c2} changes the answer to a {k} failure")
+        g = {(True, True): "neZero", (False, True): "gtZero"}.get((taken[-1], taken[1]))
+        _need(g is not None, f"{side}: guard of the {c} option not understood (-1 taken: {taken[-1]}, 1 taken: {taken[1]})")
+        _need(guards.setdefault(c, g) == g, f"{side}: two guards for class {c}")
+    r99 = obs[("redirect99",)]
+    checks.add(r99.get("out") == "panic")
+    _need(r99.get("out") == "panic" or (r99.get("out") == "resp" and r99["status"] == 99), f"{side}: redirect 99: {r99}")
+    _need(len(checks) == 1, f"{side}: status codes are checked in some answers only")
+    # media
+    def fmt_of(tag):
+        r = obs[tag]
+        _need(r.get("out") == "resp", f"{side}: no verbose answer for {tag}")
+        if not r["body"]:
+            _need(not _hdr(r, "Content-Type"), f"{side}: Content-Type without body")
+            return None
+        _need(r["fmt"] in MEDIA_MIME and _hdr(r, "Content-Type") == [MEDIA_MIME[r["fmt"]]],
+              f"{side}: body format {r['fmt']} / Content-Type {_hdr(r, 'Content-Type')} for {tag}")
+        return r["fmt"]
+    media = []
+    for _ in range(4):
+        excl = tuple(sorted(MEDIA_MIME[m] for m in media))
+        # the excluded types were probed in every order; all orders must agree
+        got = {fmt_of(("media", p)) for p in __import__("itertools").permutations(excl)} if len(excl) < 4 else set()
+        if len(excl) == 4:
+            break
+        _need(len(got) == 1, f"{side}: the preferred media type depends on the order of the excluded ones: {got}")
+        m = got.pop()
+        _need(m is not None and m not in media, f"{side}: preference among the media types not understood ({media}, {m})")
+        media.append(m)
+    _need(sorted(media) == sorted(MEDIA.values()), f"{side}: supported media types {media}")
+    fallback = fmt_of(("unacceptable",))
+    _need(fmt_of(("invalid",)) == fallback, f"{side}: invalid and unacceptable Accept headers are treated differently")
+    absent = fmt_of(("absent",))
+    if absent == fallback:
+        absent_first = False
+    else:
+        _need(absent == media[0], f"{side}: answer without Accept header: {absent}")
+        absent_first = True
+    nosniff = {bool(_hdr(obs[t], "X-Content-Type-Options")) for t in obs if t[0] in ("media", "absent") and obs[t]["body"]}
+    _need(len(nosniff) == 1, f"{side}: nosniff on some verbose answers only")
+    grpc = None
+    if side == "grpc":
+        _need(all(v >= 0 for v in gcodes.values()) and rd["grpc"] >= 0, "grpc: answers without gRPC status")
+        grpc = [gcodes, rd["grpc"]]
+    else:
+        _need(all(v == -1 for v in gcodes.values()), "http: answers with a gRPC status")
+    return {"cases": cases, "dflt": dflt, "defaults": defaults, "guards": guards, "media": media,
+            "absentIsFirst": absent_first, "fallback": fallback, "checksCode": checks.pop(), "nosniff": nosniff.pop(),
+            "grpcCodes": grpc}, act
 
 
-def extract_wiring(repo):
-    res = {}
-    for svc, rel in SERVICES:
-        src = _strip_go_comments(_read(repo, rel))
-        m = re.search(r"errorhandler\.New\((.*?)\n\t*\)", src, re.S)
-        if not m:
-            raise ExtractError(f"{rel}: errorhandler.New(...) not found")
-        args = m.group(1)
-        var = re.search(r"errorhandler\.WithVerboseErrors\((\w+)\.Respond\.Verbose\)", args)
-        if not var:
-            raise ExtractError(f"{rel}: verbose option not wired to Respond.Verbose")
-        v = var.group(1)
-        src_cfg = re.search(r"\b" + v + r"\s*:=\s*conf\.Serve\.(\w+)\b", src)
-        want = "Proxy" if svc == "proxy" else "Decision"
-        if not src_cfg or src_cfg.group(1) != want:
-            raise ExtractError(f"{rel}: service configuration is not conf.Serve.{want}")
-        w = {}
-        for o, f in re.findall(r"errorhandler\.(With\w+ErrorCode)\(" + v + r"\.Respond\.With\.(\w+)\.Code\)", args):
-            if o not in OPTION_CLASS or f not in CFG_FIELD or OPTION_CLASS[o] in w:
-                raise ExtractError(f"{rel}: option {o}({f}) not understood")
-            w[OPTION_CLASS[o]] = CFG_FIELD[f]
-        if set(w) != set(CLASSES) or len(re.findall(r"errorhandler\.With\w+\(", args)) != 7:
-            raise ExtractError(f"{rel}: options passed: {sorted(w)}")
-        res[svc] = w
-    return res
+def derive_facts(tags, answers):
+    obs = {"http": {}, "grpc": {}}
+    extra = {}
+    for tag, a in zip(tags, answers):
+        if tag[0] in ("ctxprobe", "wireprobe"):
+            _need(isinstance(a, dict) and "harness_error" not in a and "panic" not in a, f"{tag[0]} failed: {str(a)[:300]}")
+            extra[tag[0]] = a
+            continue
+        _need(isinstance(a, dict) and "http" in a and "grpc" in a, f"probe {tag} gave no answer: {str(a)[:300]}")
+        obs["http"][tag], obs["grpc"][tag] = a["http"], a["grpc"]
+    http, act_h = _derive_translator("http", obs["http"])
+    grpc, act_g = _derive_translator("grpc", obs["grpc"])
+    # challenge: O[ctx][side] = the context attaches it AND the translator sends it
+    seen = {}
+    for ctx in SERVICES:
+        for side in ("http", "grpc"):
+            r = extra["ctxprobe"][ctx][side]
+            _need(r.get("out") == "resp", f"ctxprobe {ctx}/{side}: {r}")
+            vals = _hdr(r, "WWW-Authenticate")
+            _need(vals in ([], ["Basic realm=probe"]), f"ctxprobe {ctx}/{side}: challenge {vals}")
+            seen[(ctx, side)] = bool(vals)
+    attaches = dict((c, any(seen[(c, s)] for s in ("http", "grpc"))) for c in SERVICES)
+    sends = dict((s, any(seen[(c, s)] for c in SERVICES)) for s in ("http", "grpc"))
+    for (c, s_), v in seen.items():
+        _need(v == (attaches[c] and sends[s_]), "challenge probes are not explained by contexts x translators")
+    http["sendsChallenge"], grpc["sendsChallenge"] = sends["http"], sends["grpc"]
+    # wiring
+    w = extra["wireprobe"]
+    wiring = {}
+    for svc in SERVICES:
+        section = "Proxy" if svc == "proxy" else "Decision"
+        inv = dict((v, k) for k, v in w["fields"][section].items())
+        act = act_g if svc == "envoy" else act_h
+        wiring[svc] = {}
+        for k in KINDS:
+            r = w["answers"][svc][k]
+            _need(r.get("out") == "resp" and r["status"] in inv,
+                  f"{svc} service: a {k} failure is answered with {r.get('status')}, not a status of its own "
+                  f"configuration section ({section})")
+            _need(wiring[svc].setdefault(act[k], inv[r["status"]]) == inv[r["status"]],
+                  f"{svc} service: two configuration fields for class {act[k]}")
+            _need(r["body"] == (section == "Decision"), f"{svc} service: verbose is not taken from its own section")
+        _need(set(wiring[svc]) == set(CLASSES), f"{svc} service: classes {sorted(wiring[svc])}")
+    return {"http": http, "grpc": grpc, "wiring": wiring, "contexts": attaches}
 
 
-CONTEXTS = [("decision", "internal/handler/decision/request_context.go",
-             r"if err := r\.PipelineError\(\); err != nil \{\s*return (.+?)\s*\}"),
-            ("proxy", "internal/handler/proxy/request_context.go",
-             r"if err := r\.PipelineError\(\); err != nil \{\s*return (.+?)\s*\}"),
-            ("envoy", "internal/handler/envoyextauth/grpcv3/request_context.go",
-             r"if r\.err != nil \{\s*return nil, (.+?)\s*\}")]
-
-
-def extract_contexts(repo):
-    """does `Finalize` hand the pipeline error on together with the WWW-Authenticate challenge"""
-    res = {}
-    for svc, rel, pat in CONTEXTS:
-        src = _strip_go_comments(_read(repo, rel))
-        body = _func_body(src, r"func \(r \*\w+\) Finalize\(")
-        m = re.search(pat, body)
-        if not m or not body.lstrip().startswith(("logger := zerolog", "if ")) or body.find(m.group(0)) > 120:
-            raise ExtractError(f"{rel}: Finalize does not start with the pipeline error check")
-        ret = m.group(1)
-        if ret in ("err", "r.err"):
-            res[svc] = False
-        elif re.fullmatch(r"heimdall\.WithAuthenticationChallenge\((err|r\.err), (r\.UpstreamHeaders\(\)|r\.upstreamHeaders)\)",
-                          ret):
-            res[svc] = True
-        else:
-            raise ExtractError(f"{rel}: error path of Finalize returns {ret!r}")
-    if any(res.values()):
-        src = _strip_go_comments(_read(repo, "internal/heimdall/errors.go"))
-        body = _func_body(src, r"func WithAuthenticationChallenge\(err error, headers http\.Header\) error \{")
-        ok = [re.search(r'wwwAuthenticateHeader = "WWW-Authenticate"', src),
-              re.search(r"values := headers\.Values\(wwwAuthenticateHeader\)", body),
-              re.search(r"headers: http\.Header\{wwwAuthenticateHeader: values\}", body),
-              re.search(r"func \(e \*responseHeadersError\) Unwrap\(\) error \{ return e\.error \}", src)]
-        if not all(ok):
-            raise ExtractError("WithAuthenticationChallenge not understood")
-    return res
-
-
-def extract(repo):
-    return {"http": extract_http(repo), "grpc": extract_grpc(repo), "wiring": extract_wiring(repo),
-            "contexts": extract_contexts(repo)}
+def extract(exe):
+    """run the probes against the harness built from the working tree and derive the facts"""
+    probes = probe_cases()
+    answers = vlib.run_cases([exe], [c for _, c in probes], timeout=300)
+    return derive_facts([t for t, _ in probes], answers)
 
 
 # ---------------------------------------------------------------------------------------------------------------
@@ -408,8 +323,9 @@ def _lean_translator(t):
 def render_lean(facts):
     w = facts["wiring"]
     return ("import HeimdallModel.Model.ErrMap\n"
-            "/-! GENERATED by tools/gen_errmap.py from the working tree of the repository on every check run —\n"
-            "do not edit. The two error translators and the services' option wiring as the source states them. -/\n"
+            "/-! GENERATED by tools/gen_errmap.py on every check run from probes of the RUNNING code (harness built\n"
+            "from the working tree of the repository) — do not edit. The two error translators, the request contexts\n"
+            "and the services' option wiring as they behave. -/\n"
             "namespace Heimdall.ErrMap.Gen\nopen Heimdall.ErrMap\n\n"
             "/-- `internal/handler/middleware/http/errorhandler` -/\n"
             f"def http : Translator :=\n  {_lean_translator(facts['http'])}\n\n"
@@ -418,22 +334,21 @@ def render_lean(facts):
             "/-- `errorhandler.New(...)` in the decision, proxy and Envoy gRPC `service.go`: the configuration field\n"
             "behind each class's option -/\n"
             "def wiring : List (ClassMap CfgField) :=\n  [ "
-            + ",\n    ".join(_lean_classmap(w[s], lambda x: "." + x) for s, _ in SERVICES) + " ]\n\n"
+            + ",\n    ".join(_lean_classmap(w[s], lambda x: "." + x) for s in SERVICES) + " ]\n\n"
             "/-- `Finalize` of the decision, proxy and Envoy request contexts: is the pipeline error handed on\n"
             "together with the `WWW-Authenticate` values collected by the error handlers -/\n"
             "def contextsAttachChallenge : List Bool :=\n  ["
-            + ", ".join(str(facts["contexts"][s]).lower() for s, _ in SERVICES) + "]\n\n"
+            + ", ".join(str(facts["contexts"][s]).lower() for s in SERVICES) + "]\n\n"
             "end Heimdall.ErrMap.Gen\n")
 
 
 GEN_PATH = os.path.join(vlib.LEAN, "HeimdallModel", "Gen", "ErrMapGen.lean")
 
 
-def write_gen(repo=None):
-    """delete the old generated file, extract, write. Returns the facts; raises ExtractError."""
-    repo = repo or vlib.REPO
+def write_gen(exe):
+    """probe the harness `exe`, derive the facts, (re)write the generated Lean file. Raises ExtractError."""
     os.makedirs(os.path.dirname(GEN_PATH), exist_ok=True)
-    facts = extract(repo)
+    facts = extract(exe)
     text = render_lean(facts)
     old = None
     if os.path.exists(GEN_PATH):
@@ -754,4 +669,4 @@ def mech_cases():
 
 if __name__ == "__main__":
     import sys
-    print(json.dumps(extract(sys.argv[1] if len(sys.argv) > 1 else vlib.REPO), indent=1))
+    print(json.dumps(extract(sys.argv[1]), indent=1))
